@@ -34,6 +34,14 @@ class Arg:
         return f'Arg({self.key!r},{self.cid})'
 
 
+class UArg(Arg):
+    """Argument whose str() is different for every call: with an explicit key, str(arg) must play no part"""
+    __slots__ = ()
+
+    def __str__(self):
+        return f'{self.key}#{self.cid}'
+
+
 class CIKey(str):
     """a key type with its own equality: case-insensitive identifiers"""
     def __eq__(self, other):
@@ -75,7 +83,7 @@ def gen(rng, flavour):
            'tail': rng.choice([0, 0, BT / 2, 2 * BT]) if flavour in ('c10', 'c04') else 0,
            'order': rng.choice(['fwd', 'rev', 'shuf']),
            'form': rng.choice(['class', 'class', 'deco', 'deco_opts']),
-           'explicit_key': rng.choice([True, True, 'prefixed', False])}
+           'explicit_key': rng.choice([True, True, 'prefixed', False, 'emptyone'])}
     if flavour == 'c10':
         gaps = [0, 0, BT / 4, BT - BT / 16, BT, BT + BT / 16, 2 * BT + BT / 4, 5 * BT]
         n = rng.randint(1, 12)
@@ -192,6 +200,9 @@ class BatcherHarness:
             beh = {}
 
             def eff_key_of(c):
+                if cfg['explicit_key'] == 'emptyone':
+                    # one of the explicit keys is the empty string: a key like any other
+                    return '' if c['key'] == 'a' else c['key']
                 return 'K' + c['key'] if cfg['explicit_key'] == 'prefixed' else c['key']
 
             async def fn(batch):
@@ -321,6 +332,8 @@ class BatcherHarness:
 
                     def eff_key(c):
                         # 'prefixed': the explicit key differs from str(arg), so ignoring it shows
+                        if cfg['explicit_key'] == 'emptyone':
+                            return '' if c['key'] == 'a' else c['key']
                         return 'K' + c['key'] if cfg['explicit_key'] == 'prefixed' else c['key']
 
                     for t_gc in cfg.get('gc_at', ()):
@@ -332,6 +345,8 @@ class BatcherHarness:
 
                     def invoke(c, cid):
                         a = (EqArg if cfg.get('args_equal') else Arg)(c['key'], cid)
+                        if cfg['explicit_key'] in ('prefixed', 'emptyone') and not cfg.get('args_equal'):
+                            a = UArg(c['key'], cid)
                         if cfg['explicit_key'] == 'ci':
                             # keys with an equality of their own: a str subclass that ignores case, spelled differently per call
                             return bat(a, key=CIKey(c['key'].upper() if cid % 2 else c['key']))
@@ -389,6 +404,8 @@ class BatcherHarness:
                         c = {'key': nk, 'beh': 'val', 'how': None, 'cancel': None, 't': 0}
                         if cfg['explicit_key'] == 'prefixed' and nk.startswith('K'):
                             c['key'] = nk[1:]
+                        if cfg['explicit_key'] == 'emptyone' and nk == '':
+                            c['key'] = 'a'
                         nested_tasks.append(aio.ensure_future(call(cid, c, first=False)))
                     box['nested'] = nested
 
@@ -396,6 +413,8 @@ class BatcherHarness:
                         c = {'key': nk, 'beh': 'val', 'how': None, 'cancel': None, 't': 0}
                         if cfg['explicit_key'] == 'prefixed' and nk.startswith('K'):
                             c['key'] = nk[1:]
+                        if cfg['explicit_key'] == 'emptyone' and nk == '':
+                            c['key'] = 'a'
                         return call(cid, c, first=False)
                     box['nested_await'] = nested_await
 
@@ -887,6 +906,8 @@ class BatcherCheck(Check):
         st = res.stats
         st['executions'] += 1
         st[f'form_{prog["cfg"]["form"]}'] += 1
+        if prog['cfg'].get('explicit_key') == 'emptyone' and any(c['key'] == 'a' for c in prog['calls']):
+            st['programs_with_the_empty_string_as_an_explicit_key'] += 1
         v = BatView(r.log, prog)
         st['batches'] += len(v.bstarts)
         res.sig = str(len(v.bstarts))
@@ -934,7 +955,7 @@ class BatcherCheck(Check):
     def floors(self, tier):
         k = 1 if tier == 'quick' else 20
         if self.pid == 'C04':
-            f = {'nontrivial': 5000 * k}
+            f = {'nontrivial': 5000 * k, 'programs_with_the_empty_string_as_an_explicit_key': 300 * k}
             for b in ('val', 'exc', 'omit', 'raise', 'twice', 'unknown'):
                 f[f'behaviour_in_multi_batch_{b}'] = 500 * k
             return f
@@ -948,14 +969,15 @@ class BatcherCheck(Check):
         if self.pid == 'C10':
             return {'size_limit_reached': 3000 * k, 'waited_for_slot': 1000 * k, 'closed_by_timeout': 3000 * k,
                     'close_arrivals_judged': 5000 * k}
-        return {'nontrivial': 2000 * k, 'call_inside_window': 5000 * k, 'call_after_window': 5000 * k}
+        return {'nontrivial': 2000 * k, 'call_inside_window': 5000 * k, 'call_after_window': 5000 * k,
+                'programs_with_the_empty_string_as_an_explicit_key': 300 * k}
 
     @property
     def rule(self):
         base = ('cases = seeded timed programs of calls on the grid around batch_timeout (and around the retention '
                 'window for C11), max_batch_size 1-5, max_concurrent_batches 1-3, retention_timeout {0, bt/2, 8bt}, batch and '
                 'item durations on the grid, result order forward/reverse/shuffled, class / decorator / decorator-with-options '
-                'forms, explicit and default str(arg) keys; (C04, C11) the class of yielded / raised failures from {HarnessError, KeyError '
+                'forms, explicit (one of them may be the empty string) and default str(arg) keys; (C04, C11) the class of yielded / raised failures from {HarnessError, KeyError '
                 'and a subclass, StopIteration, StopAsyncIteration, TimeoutError, OSError, ValueError, RuntimeError} and arguments that '
                 'compare equal but print differently; (C10) impatient callers that give up before the hand-over; (C11) callers that ask '
                 'again right after being answered; batch functions that are a partial / a callable instance / return a bare '
